@@ -57,9 +57,10 @@ type freeRun struct {
 	executed map[int][]int
 	execCnt  map[[2]int]int
 	// timers
-	fired   map[int]int
-	cleared map[int]bool // cleared on the loop thread (from a callback) before it fired
-	cbs     int
+	fired      map[int]int
+	cleared    map[int]bool // cleared on the loop thread (from a callback) before it fired
+	cbs        int
+	foreground bool // use StartInForeground (on its own goroutine) instead of Start
 }
 
 func newFreeRun(kind, params string) *freeRun {
@@ -295,7 +296,39 @@ func (f *freeRun) stop(r *lib.Rand) (int, bool) {
 
 func (f *freeRun) start() {
 	atomic.StoreInt32(&f.stopped, 0)
+	if f.foreground { // StartInForeground on a goroutine of its own: the same loop as Start(), run by the caller's goroutine
+		entered := make(chan struct{})
+		go func() {
+			defer func() {
+				if x := recover(); x != nil {
+					f.fail("free-api-call-panicked", fmt.Sprintf("StartInForeground(): %v", x))
+				}
+			}()
+			close(entered)
+			f.loop.StartInForeground()
+		}()
+		<-entered
+		// Start() returns once the loop is marked running; wait for the same here before the caller goes on to Stop()
+		for i := 0; i < 2000 && !f.sync0(); i++ {
+			time.Sleep(50 * time.Microsecond)
+		}
+		return
+	}
 	f.loop.Start()
+}
+
+// sync0: has the foreground loop taken up its work? (a probe function ran)
+func (f *freeRun) sync0() bool {
+	done := make(chan struct{})
+	if !f.loop.RunOnLoop(func(*goja.Runtime) { close(done) }) {
+		return true
+	}
+	select {
+	case <-done:
+		return true
+	case <-time.After(2 * time.Millisecond):
+		return false
+	}
 }
 
 // ---- kinds ----
@@ -304,6 +337,10 @@ func (f *freeRun) start() {
 func freeLifecycle(r *lib.Rand) *freeRun {
 	nsub, per, cycles := 1+r.Intn(3), 5+r.Intn(40), 2+r.Intn(4)
 	f := newFreeRun("lifecycle", fmt.Sprintf("submitters=%d per=%d cycles=%d", nsub, per, cycles))
+	f.foreground = r.Chance(25)
+	if f.foreground {
+		f.params += " StartInForeground"
+	}
 	f.loop.Run(func(vm *goja.Runtime) { f.install(vm) })
 	atomic.StoreInt32(&f.stopped, 1)
 	var wg sync.WaitGroup
